@@ -1009,3 +1009,66 @@ Proof.
   rewrite nth_padd by (rewrite !plsum_length by assumption; reflexivity).
   rewrite !nth_plsum by assumption. rewrite map_app, lsum_app. reflexivity.
 Qed.
+
+(* ---------- statements pinned in Props/C05.v ---------- *)
+Theorem cnv_is_truncated_bivariate_product :
+  forall (fft : bool) (n rsz cnv_offset pasz pbsz : nat) (mask_a mask_b : Z) (a b : plimbs) (k : nat),
+  wfl n a -> wfl n b -> (1 <= pasz)%nat -> (1 <= pbsz)%nat -> (k < rsz)%nat ->
+  let A := cnv_prepare n pasz mask_a a in let B := cnv_prepare n pbsz mask_b b in
+  lim (cnv_apply fft n rsz cnv_offset A B) k =
+  psumf n (fun i => psumf n (fun j =>
+     if Nat.eqb (i + j) (k + cnv_offset) then pmul (lim A i) (lim B j) else pzero n) pbsz) pasz.
+Proof.
+  intros fft n rsz off pasz pbsz ma mb a b k wa wb Ha Hb Hk A B.
+  pose proof (cnv_apply_spec fft n rsz off A B k) as H. unfold bivariate_coeff in H.
+  subst A B. rewrite !cnv_prepare_length in H. apply H; try assumption; try (rewrite cnv_prepare_length; assumption);
+    apply cnv_prepare_wfl; assumption.
+Qed.
+
+Theorem mul_plain_phase :
+  forall (fft : bool) (n rsz dsz hi : nat) (P rb ab lo : Z) (nrm : plimbs -> limbs) (eps kap : plimbs -> list Z) (dom : plimbs -> Prop)
+         (B : plimbs),
+  (forall D, shaped n rsz (nrm D)) ->
+  (forall D, wfl n D -> length D = dsz -> dom D ->
+     length (eps D) = n /\ length (kap D) = n /\
+     pval n P rb (nrm D) = padd (padd (pval n (P + lo) ab D) (eps D)) (pscale (2 ^ P) (kap D)) /\
+     (forall c, Z.abs (nth c (eps D) 0) <= 2 ^ (P - zn rsz * rb))) ->
+  wfl n B -> (1 <= length B)%nat ->
+  forall (A : list plimbs) (key : list (list Z)),
+  (forall a, In a A -> wfl n a /\ (1 <= length a)%nat /\ dom (cnv_apply fft n dsz hi a B)) -> (forall k, In k key -> length k = n) ->
+  let Cf := fun a => cnv_apply fft n dsz hi a B in
+  phase n P rb (map (fun a => nrm (Cf a)) A) key =
+  padd (padd (plsum n (map (fun q => pmul (pval n (P + lo) ab (Cf (fst q))) (snd q)) (combine A key)))
+             (plsum n (map (fun q => pmul (eps (Cf (fst q))) (snd q)) (combine A key))))
+       (pscale (2 ^ P) (plsum n (map (fun q => pmul (kap (Cf (fst q))) (snd q)) (combine A key)))).
+Proof.
+  intros fft n rsz dsz hi P rb ab lo nrm eps kap dom B Hs Hv wB LB A key HA Hk Cf.
+  apply (column_phase n rsz dsz P rb ab lo nrm eps kap dom Cf Hs Hv A key); [|exact Hk].
+  intros a Ha. destruct (HA a Ha) as (wa & La & da). subst Cf. cbv beta. repeat split.
+  - apply cnv_apply_wfl; assumption.
+  - apply cnv_apply_length.
+  - exact da.
+Qed.
+
+Theorem mul_const_phase :
+  forall (fft : bool) (n rsz dsz hi : nat) (P rb ab lo : Z) (nrm : plimbs -> limbs) (eps kap : plimbs -> list Z) (dom : plimbs -> Prop)
+         (b : list Z),
+  (forall D, shaped n rsz (nrm D)) ->
+  (forall D, wfl n D -> length D = dsz -> dom D ->
+     length (eps D) = n /\ length (kap D) = n /\
+     pval n P rb (nrm D) = padd (padd (pval n (P + lo) ab D) (eps D)) (pscale (2 ^ P) (kap D)) /\
+     (forall c, Z.abs (nth c (eps D) 0) <= 2 ^ (P - zn rsz * rb))) ->
+  (1 <= length b)%nat ->
+  forall (A : list plimbs) (key : list (list Z)),
+  (forall a, In a A -> wfl n a /\ (1 <= length a)%nat /\ dom (cnv_by_const fft n dsz hi a b)) -> (forall k, In k key -> length k = n) ->
+  let Cf := fun a => cnv_by_const fft n dsz hi a b in
+  phase n P rb (map (fun a => nrm (Cf a)) A) key =
+  padd (padd (plsum n (map (fun q => pmul (pval n (P + lo) ab (Cf (fst q))) (snd q)) (combine A key)))
+             (plsum n (map (fun q => pmul (eps (Cf (fst q))) (snd q)) (combine A key))))
+       (pscale (2 ^ P) (plsum n (map (fun q => pmul (kap (Cf (fst q))) (snd q)) (combine A key)))).
+Proof.
+  intros fft n rsz dsz hi P rb ab lo nrm eps kap dom b Hs Hv Lb A key HA Hk Cf.
+  apply (column_phase n rsz dsz P rb ab lo nrm eps kap dom Cf Hs Hv A key); [|exact Hk].
+  intros a Ha. destruct (HA a Ha) as (wa & La & da). subst Cf. cbv beta.
+  destruct (cnv_by_const_wfl fft n dsz hi a b wa La Lb) as [w L]. repeat split; assumption.
+Qed.
